@@ -959,3 +959,114 @@ func TestVerifGME(t *testing.T) {
 	}
 	out.write(env.Out)
 }
+
+// ---------------------------------------------------------------- C10 workload (built with -race)
+
+// TestVerifRaceGME: RPC goroutines (all context kinds, unary and streaming) ||
+// UpdateMultiEndpoints loop || endpoint outages || GCPConfig() || Close.
+func TestVerifRaceGME(t *testing.T) {
+	env := vGetEnv()
+	if env.Prop == "" {
+		t.Skip("VERIF_PROP not set")
+	}
+	out := vNewOut(env, "race-gme")
+	runs := int64(3)
+	budget := 1500 * time.Millisecond
+	if env.Tier == "thorough" {
+		runs, budget = 12, 3*time.Second
+	}
+	for _, idx := range env.vCases(runs) {
+		w := gmNewWalk(vNewRand(env.Seed, "race-gme", idx), idx)
+		o := w.genOpts()
+		gme, err := NewGCPMultiEndpoint(o, w.dopts()...)
+		if err != nil {
+			out.inconclusive("race-gme: construction failed: " + err.Error())
+			w.stopServers()
+			continue
+		}
+		w.gme = gme
+		var wg sync.WaitGroup
+		t0 := time.Now()
+		var updates, outages, cfgReads int64
+		rpcs := make([]int64, 6)
+		oks := make([]int64, 6)
+		wg.Add(1)
+		go func() { // reconfiguration + outages (single goroutine: it owns w.rng, w.up)
+			defer wg.Done()
+			for time.Since(t0) < budget {
+				if w.rng.Intn(3) == 0 {
+					e := gmEPNames[w.rng.Intn(len(gmEPNames))]
+					if w.up[e] {
+						w.eps[e].stop()
+						w.up[e] = false
+					} else {
+						w.eps[e].start()
+						w.up[e] = true
+					}
+					outages++
+				} else {
+					if err := gme.UpdateMultiEndpoints(w.genOpts()); err == nil {
+						updates++
+					}
+				}
+				time.Sleep(time.Duration(w.rng.Intn(3)) * time.Millisecond)
+			}
+		}()
+		for g := 0; g < 6; g++ {
+			wg.Add(1)
+			go func(g int) {
+				defer wg.Done()
+				rng := vNewRand(env.Seed, "race-gme-rpc", idx*100+int64(g))
+				names := []string{"", "nosuch", "default", "read", "write", "x"}
+				for time.Since(t0) < budget {
+					n := names[rng.Intn(len(names))]
+					ctx, cancel := context.WithTimeout(context.Background(), 200*time.Millisecond)
+					if n != "" {
+						ctx = NewMEContext(ctx, n)
+					}
+					var outv wrapperspb.StringValue
+					rpcs[g]++
+					if rng.Intn(3) == 0 {
+						if cs, err := gme.NewStream(ctx, &grpc.StreamDesc{StreamName: "Echo", ClientStreams: true, ServerStreams: true}, "/verif.S/EchoStream"); err == nil {
+							if cs.SendMsg(wrapperspb.String("hi")) == nil {
+								cs.CloseSend()
+								if cs.RecvMsg(&outv) == nil {
+									oks[g]++
+								}
+							}
+						}
+					} else if gme.Invoke(ctx, "/verif.S/Echo", wrapperspb.String("hi"), &outv) == nil {
+						oks[g]++
+					}
+					cancel()
+				}
+			}(g)
+		}
+		wg.Add(1)
+		go func() {
+			defer wg.Done()
+			for time.Since(t0) < budget {
+				_ = gme.GCPConfig()
+				cfgReads++
+				time.Sleep(200 * time.Microsecond)
+			}
+		}()
+		wg.Wait()
+		gme.Close()
+		w.stopServers()
+		var nr, nok int64
+		for g := range rpcs {
+			nr += rpcs[g]
+			nok += oks[g]
+		}
+		out.Evaluations++
+		out.hitN("C10.gme-rpcs", nr)
+		out.hitN("C10.gme-rpcs-ok", nok)
+		out.hitN("C10.gme-updates", updates)
+		out.hitN("C10.gme-outages", outages)
+		out.hitN("C10.gme-config-reads", cfgReads)
+		out.nontrivial(vHashStrings([]string{"race-gme", fmt.Sprint(idx)}))
+		out.sample(map[string]interface{}{"workload": "gme", "rpcs": nr, "ok": nok, "updates": updates, "outages": outages})
+	}
+	out.write(env.Out)
+}
